@@ -142,12 +142,28 @@ def check(run, model, tier):
                 fab = True
         atoms = must_atoms(g, s, re_.node, params=re_.params)
         stop = any(op in ('NotEq', 'IsNot') and ('STOP_ACTIVE_OBJECT_SIGNAL' in l or 'STOP_ACTIVE_OBJECT_SIGNAL' in r) for (l, op, r) in atoms)
+        # the same three guards when they are folded into one boolean local (`runnable = fabric and non-empty and not stop`)
+        for (l_, op_, r_) in atoms:
+            e_ = None
+            try:
+                e_ = ast.parse('%s' % l_, mode='eval').body if op_ in ('Truthy', 'Falsy') else ast.parse('(%s) %s (%s)' % (l_, {'Eq': '==', 'NotEq': '!=', 'Lt': '<', 'LtE': '<=', 'Gt': '>', 'GtE': '>=', 'Is': 'is', 'IsNot': 'is not'}.get(op_, '=='), r_), mode='eval').body
+            except SyntaxError:
+                continue
+            if op_ == 'Falsy':
+                e_ = ast.UnaryOp(op=ast.Not(), operand=e_)
+            rec_, p2_ = queues.is_nonempty_test(e_, selfn + '.queue')
+            if rec_ and p2_:
+                ne = True
+            if l_ == '%s.is_set()' % fab_p and op_ == 'Truthy':
+                fab = True
         run.inst('CONSUMER.run_event', re_, 'step only when the queue is non-empty', ne,
                  '' if ne else 'next_rtc is called without a dominating non-empty test of the queue', node=s.ast, obligation=True)
         run.inst('CONSUMER.run_event', re_, 'step only when the head is not the stop signal', stop,
                  '' if stop else 'the stop signal would be dispatched to the chart', node=s.ast, obligation=True)
         run.inst('CONSUMER.run_event', re_, 'step only while the fabric runs', fab,
                  '' if fab else 'a step can run after the fabric was stopped', node=s.ast, obligation=True)
+    n_cl = queues.check_consumer_self_stop(run, 'CONSUMER.run_event', re_, g, flag_p, fab_p, selfn)
+    run.floor('run_event self-stop sites', n_cl, 1)
     # ---- LAYER.step-owner
     hq_steps = set()
     for k in [hq] + model.subclasses(hq) + model.mro(hq):
